@@ -51,7 +51,8 @@ const (
 
 var c03DimName = [c03ND]corev1.ResourceName{corev1.ResourceCPU, corev1.ResourceMemory}
 
-// c03Undeclared is a resource no quota of the universes declares in max.
+// c03Undeclared is a resource no quota of the universes declares in max (except where a quota sets extraMax: then ONLY
+// that quota declares it, and its siblings still do not).
 const c03Undeclared = corev1.ResourceName("example.com/undeclared")
 
 type c03Vec [c03ND]int64
@@ -74,6 +75,7 @@ type c03QuotaDef struct {
 	maxStart  int
 	minLevels []c03Vec
 	minStart  int
+	extraMax  int64 // > 0: this quota (only) additionally declares c03Undeclared in its max
 }
 
 type c03PodDef struct {
@@ -184,6 +186,26 @@ var c03Starved = &c03Universe{
 	syncLeaves: []int{0, 1},
 	node1:      c03V(4, 4),
 	node2:      c03V(2, 2),
+}
+
+// c03Hetero: two top-level quotas that do not declare the same dimensions (the webhook only compares a quota with its
+// parent and children): c03-h also declares c03Undeclared, c03-e does not, so the root's calculator hands c03-e a runtime
+// that carries "undeclared: 0". A pod of c03-e that requests the undeclared dimension is not limited in it (seed C03-4).
+var c03Hetero = &c03Universe{
+	name: "hetero",
+	desc: "root->{c03-h (also declares example.com/undeclared), c03-e (cpu, memory only)}",
+	quotas: []c03QuotaDef{
+		{name: "c03-h", parent: -1, lend: true, maxLevels: []c03Vec{c03V(4, 4)}, minLevels: []c03Vec{c03V(1, 1)}, extraMax: 8},
+		{name: "c03-e", parent: -1, lend: true, maxLevels: []c03Vec{c03V(4, 4), c03V(6, 6)}, maxStart: 0, minLevels: []c03Vec{c03V(1, 1)}},
+	},
+	pods: []c03PodDef{
+		{name: "e1", quota: 1, req: c03V(1, 1), undeclared: 9},
+		{name: "e2", quota: 1, req: c03V(2, 1)},
+		{name: "h1", quota: 0, req: c03V(1, 1)},
+	},
+	syncLeaves: []int{0, 1},
+	node1:      c03V(8, 8),
+	node2:      c03V(4, 4),
 }
 
 // ---------------------------------------------------------------------------------------------------------
@@ -314,6 +336,9 @@ func c03MakeQuota(u *c03Universe, qi int, max, min c03Vec) *c03sched.ElasticQuot
 	q := &c03sched.ElasticQuota{
 		ObjectMeta: metav1.ObjectMeta{Namespace: "c03", Name: d.name, Labels: map[string]string{}, Annotations: map[string]string{}},
 		Spec:       c03sched.ElasticQuotaSpec{Max: max.list(), Min: min.list()},
+	}
+	if d.extraMax > 0 {
+		q.Spec.Max[c03Undeclared] = *resource.NewQuantity(d.extraMax, resource.DecimalSI)
 	}
 	q.Labels[extension.LabelQuotaParent] = u.parentName(qi)
 	if d.isParent {
@@ -1043,6 +1068,7 @@ func c03Plan(env *mc.Env) []*c03Cfg {
 	}
 	for _, cp := range []bool{false, true} {
 		add(c03NewCfg("starved", c03Starved, true, cp, env.Thorough(), 3, d0, 1), d1+1)
+		add(c03NewCfg("hetero", c03Hetero, true, cp, env.Thorough(), 3, d0, 1), d1+1)
 	}
 	for _, cp := range []bool{false, true} {
 		add(c03NewCfg("hist", c03Tree, false, cp, false, env.Pick(6, 7), d0, 5), d1)
